@@ -5,7 +5,7 @@ HERE = os.path.dirname(os.path.dirname(os.path.abspath(__file__)))
 out = []
 out.append("## 10. Sensitivity: which checks catch which changes\n")
 out.append("### 10.1 Independently seeded changes (sub-agents, property text only)\n")
-out.append("Every change below compiles, passes the repository's 55 tests, and comes with a demonstration that fails with it and passes without it (all re-confirmed by `tools/eval_seed.sh` in a scratch worktree; logs in `seeded/<name>/confirmation.txt`). `first` = verdict of the quick check(s) as they were when the change arrived; `now` = after the strengthening named in 10.2 (re-run by `tools/recheck_seed.sh`). `exit=1 rule` = caught with that oracle rule; `miss` = quick check stayed green. The `now` column is the verdict of the final harness (`tools/recheck_all_parallel.sh`, all stored changes re-run against the quick check of their own property at the end; C12's changes were last re-run when they were strengthened for, the machine being too loaded at the end for timing checks). Six older patches (`c01c`, `c04c`, `c04d`, `c04e`, `c08d`, `c10_notified_cleared_after_drain`) no longer apply to the tree since the repairs of F17 / F18 rewrote the lines they change; their `now` is the last verdict from when they applied. `c06d` is no longer detected because the repair of F17 removed the failing `unregister` it needs; `c04m` lives entirely in the corner C04 steers around while F6 is open; `c18c` is kept as an example of a change that only shows outside the documented protocol.\n")
+out.append("Every change below compiles, passes the repository's 55 tests, and comes with a demonstration that fails with it and passes without it (all re-confirmed by `tools/eval_seed.sh` in a scratch worktree; logs in `seeded/<name>/confirmation.txt`). `first` = verdict of the quick check(s) as they were when the change arrived; `now` = after the strengthening named in 10.2 (re-run by `tools/recheck_seed.sh`). `exit=1 rule` = caught with that oracle rule; `miss` = quick check stayed green. The `now` column is the verdict of the final harness (`tools/recheck_all_parallel.sh`, all stored changes re-run against the quick check of their own property at the end; the timing-sensitive ones - C12's, `c04g`, `c14f` - once more on the idle machine after the thorough runs, where a loaded machine had left `c04g` and `c14f` inconclusive, exit 2). Six older patches (`c01c`, `c04c`, `c04d`, `c04e`, `c08d`, `c10_notified_cleared_after_drain`) no longer apply to the tree since the repairs of F17 / F18 rewrote the lines they change; their `now` is the last verdict from when they applied. `c06d` is no longer detected because the repair of F17 removed the failing `unregister` it needs; `c04m` lives entirely in the corner C04 steers around while F6 is open; `c18c` is kept as an example of a change that only shows outside the documented protocol.\n")
 out.append("| seeded change | property | what it does / what it needs | first | now |")
 out.append("|---|---|---|---|---|")
 rows = []
